@@ -248,7 +248,7 @@ def rgbToHsvList (c : List Val) : Option (Rat × Rat × Rat × Val) :=
   | [r, g, b, k] =>
     match numOf r, numOf g, numOf b with
     | some r, some g, some b =>
-      let (h, s, v) := Conv.rgbToHsv (r / 100) (g / 100) (b / 100)
+      let (h, s, v) := Conv.rgbToHsv (max 0 (r / 100)) (max 0 (g / 100)) (max 0 (b / 100))
       some (h, s, v, k)
     | _, _, _ => none
   | _ => none
@@ -525,12 +525,17 @@ def State.switchMode (s : State) (to : UnitMode) : State :=
     | none => s.fault "unit switch: non-numeric colour"
     | some c =>
       let s2 := s1.storeColor c
+      -- a time-of-day pattern in the `time` register has no units
+      let keepTime (f : Val → Option Val) (t : Val) : Option Val :=
+        match t with
+        | .pat _ => some t
+        | _ => f t
       if to == .raw then
-        match s.asRawTime (s.regs .duration), s.asRawTime (s.regs .time) with
+        match s.asRawTime (s.regs .duration), keepTime s.asRawTime (s.regs .time) with
         | some d, some t => (s2.setReg .duration d).setReg .time t
         | _, _ => s.fault "unit switch: non-numeric time"
       else if from_ == .raw then
-        match timeLogical (s.regs .duration), timeLogical (s.regs .time) with
+        match timeLogical (s.regs .duration), keepTime timeLogical (s.regs .time) with
         | some d, some t => (s2.setReg .duration d).setReg .time t
         | _, _ => s.fault "unit switch: non-numeric time"
       else s2
